@@ -134,6 +134,15 @@ pub fn send_len(r: &mut Rng) -> u8 {
     *r.pick(&[0u8, 1, 1, 2, 3, 5, 8])
 }
 
+/// Like `send_len`, but sometimes the largest application payload of the current data rate (255 = "M - 8").
+pub fn send_len_or_max(r: &mut Rng) -> u8 {
+    if r.chance(1, 6) {
+        255
+    } else {
+        send_len(r)
+    }
+}
+
 /// A MAC command with field values drawn from the whole range (biased towards plausible ones).
 pub fn gen_mac(r: &mut Rng, region: RegionId) -> MacSpec {
     match r.below(14) {
